@@ -33,7 +33,7 @@ func (p *InPort) AddOpenHook(hook OpenHook) bool {
 			return false
 		}
 	}
-	p.openHooks = append(p.openHooks, hook)
+	p.openHooks = append(p.openHooks[:len(p.openHooks):len(p.openHooks)], hook)
 	return true
 }
 
@@ -44,7 +44,7 @@ func (p *InPort) RemoveOpenHook(hook OpenHook) bool {
 
 	for i, h := range p.openHooks {
 		if h == hook {
-			p.openHooks = append(p.openHooks[:i], p.openHooks[i+1:]...)
+			p.openHooks = append(p.openHooks[:i:i], p.openHooks[i+1:]...)
 			return true
 		}
 	}
@@ -61,7 +61,7 @@ func (p *InPort) AddCloseHook(hook CloseHook) bool {
 			return false
 		}
 	}
-	p.closeHooks = append(p.closeHooks, hook)
+	p.closeHooks = append(p.closeHooks[:len(p.closeHooks):len(p.closeHooks)], hook)
 	return true
 }
 
@@ -72,7 +72,7 @@ func (p *InPort) RemoveCloseHook(hook CloseHook) bool {
 
 	for i, h := range p.closeHooks {
 		if h == hook {
-			p.closeHooks = append(p.closeHooks[:i], p.closeHooks[i+1:]...)
+			p.closeHooks = append(p.closeHooks[:i:i], p.closeHooks[i+1:]...)
 			return true
 		}
 	}
@@ -89,7 +89,7 @@ func (p *InPort) AddListener(listener Listener) bool {
 			return false
 		}
 	}
-	p.listeners = append(p.listeners, listener)
+	p.listeners = append(p.listeners[:len(p.listeners):len(p.listeners)], listener)
 	return true
 }
 
